@@ -30,8 +30,8 @@ CHECKS = {
             "NaN/Inf and channels have no JSON encoding and are not generated; templ.JSExpression is a documented raw pass-through and not generated",
             "function names given to JSFuncCall are the author's input: only 'cannot smuggle code, cannot break markup' is required of odd names",
         ],
-        "quick": {"rapid_checks": 12000, "timeout": 900},
-        "thorough": {"rapid_checks": 120000, "timeout": 3400, "shards": 16},
+        "quick": {"timeout": 900, "runs": [{"run": "^TestProp(Positions|AllScalars)$", "rapid_checks": 10000}, {"run": "^TestPropScripts$", "rapid_checks": 25}]},
+        "thorough": {"timeout": 3400, "shards": 16, "runs": [{"run": "^TestProp(Positions|AllScalars)$", "rapid_checks": 100000}, {"run": "^TestPropScripts$", "rapid_checks": 150}]},
     },
     "C04": {
         "pkg": "./checks/c04",
